@@ -15,9 +15,14 @@ import (
 
 var c13T = TypeD{Name: "t",
 	Attrs: []AttrD{{"s", Kind{j.AttrTypeString, false}}, {"n", Kind{j.AttrTypeInt, true}}, {"b", Kind{j.AttrTypeBool, false}}},
-	Rels:  []RelD{{"one", true, "u", ""}, {"many", false, "u", ""}}}
+	Rels:  []RelD{{"one", true, "u", ""}, {"many", false, "u", ""}, {"two", true, "u", ""}}}
 
-func c13Body(x *mc.Exec) {
+func c13Body(x *mc.Exec) { c13Run(x, false) }
+
+// c13Order explores the member-visiting order on a reduced product.
+func c13Order(x *mc.Exec) { c13Run(x, true) }
+
+func c13Run(x *mc.Exec, order bool) {
 	soft := x.Choose(2, "impl") == 0
 	schema := BuildSchema([]TypeD{c13T, {Name: "u"}}, []bool{soft, true})
 
@@ -29,7 +34,14 @@ func c13Body(x *mc.Exec) {
 	var aparts []string
 	attrsIn := []string{}
 	for _, n := range []string{"s", "n", "b"} {
-		f := attrForms[n][x.Choose(4, "attr "+n)]
+		nf := 4
+		if order {
+			nf = 2
+			if n != "s" {
+				nf = 1
+			}
+		}
+		f := attrForms[n][x.Choose(nf, "attr "+n)]
 		if f != "" {
 			aparts = append(aparts, fmt.Sprintf("%q:%s", n, f))
 			attrsIn = append(attrsIn, n)
@@ -55,7 +67,23 @@ func c13Body(x *mc.Exec) {
 			relsWithData = append(relsWithData, n)
 		}
 	}
-	extra := x.Choose(5, "extra")
+	// a second to-one relationship: absent, null, identifier without id, identifier
+	twoForms := []struct {
+		js      string
+		hasData bool
+	}{{"", false}, {`{"data":null}`, true}, {`{"data":{"type":"u"}}`, true}, {`{"data":{"type":"u","id":"k2"}}`, true}}
+	tf := twoForms[x.Choose(len(twoForms), "rel two")]
+	if tf.js != "" {
+		rparts = append(rparts, `"two":`+tf.js)
+	}
+	if tf.hasData {
+		relsWithData = append(relsWithData, "two")
+	}
+	nextra := 5
+	if order {
+		nextra = 1
+	}
+	extra := x.Choose(nextra, "extra")
 	typeName := "t"
 	switch extra {
 	case 1:
@@ -83,7 +111,14 @@ func c13Body(x *mc.Exec) {
 	fp := Try(func() { full, ferr = j.UnmarshalResource([]byte(payload), schema) })
 	var part *j.SoftResource
 	var perr error
-	pp := Try(func() { part, perr = j.UnmarshalPartialResource([]byte(payload), schema) })
+	var pp string
+	if order {
+		WithMapDevIn(x, map[string]bool{"UnmarshalPartialResource": true}, func() {
+			pp = Try(func() { part, perr = j.UnmarshalPartialResource([]byte(payload), schema) })
+		})
+	} else {
+		pp = Try(func() { part, perr = j.UnmarshalPartialResource([]byte(payload), schema) })
+	}
 	x.R.Add("transitions", 2)
 	x.Observe(payload, fp, pp, ferr != nil, perr != nil)
 	sig := "C13:" + implName(soft)
@@ -101,7 +136,7 @@ func c13Body(x *mc.Exec) {
 	if perr != nil {
 		return
 	}
-	if len(attrsIn)+len(relsWithData) > 0 && len(attrsIn)+len(relsWithData) < 5 {
+	if len(attrsIn)+len(relsWithData) > 0 && len(attrsIn)+len(relsWithData) < 6 {
 		x.R.Mark("nontrivial", mc.Hash(payload, soft))
 	}
 	if part == nil {
@@ -173,7 +208,7 @@ func c13Body(x *mc.Exec) {
 func init() {
 	Register(&Prop{
 		ID: "C13",
-		Rule: "Engine A, all choices Full, complete product: {soft,struct-backed} x 3 attributes each in {absent, valid, explicit null, wrong kind} x 2 relationships each in 10 forms (absent, {}, links only, meta only, data:null, identifier, data:[], list of 2, wrong kind, data+links) x {plain, unknown attribute, unknown relationship with/without data, unknown type}. Oracle: partial accepts iff full accepts; on acceptance Attrs()/Rels() = names present / names with a data member, definitions = schema's, values = full unmarshaling's, every other schema field reads nil. Non-trivial = accepted payload with a proper, non-empty subset of the fields",
-		Harnesses: []Harness{{Name: "C13/payload", Body: c13Body}},
+		Rule: "Engine A, all choices Full, complete product: {soft,struct-backed} x 3 attributes each in {absent, valid, explicit null, wrong kind} x 2 relationships each in 10 forms x a second to-one relationship in 4 forms, plus a reduced product (1 attribute) with the partial call under every iteration order of one member map (deviation bound 1) (absent, {}, links only, meta only, data:null, identifier, data:[], list of 2, wrong kind, data+links) x {plain, unknown attribute, unknown relationship with/without data, unknown type}. Oracle: partial accepts iff full accepts; on acceptance Attrs()/Rels() = names present / names with a data member, definitions = schema's, values = full unmarshaling's, every other schema field reads nil. Non-trivial = accepted payload with a proper, non-empty subset of the fields",
+		Harnesses: []Harness{{Name: "C13/payload", Body: c13Body}, {Name: "C13/member-order", Body: c13Order, Dev: func() int { return 1 }}},
 	})
 }
